@@ -16,6 +16,7 @@ CONSTANTS MaxEntries,  \* entries per namespace
           MaxSched,    \* schedule steps per behaviour
           MaxGen,      \* reopen generations
           CfgIds,      \* which configurations (indices into Cfgs)
+          Modes,       \* consistency modes of the object: subset of {"lazy", "always"}
           Dump         \* "none" | "hist" | "edges"
 
 MCNames   == {"a", "b", "l"}
@@ -92,8 +93,8 @@ Init == /\ st = Uninit
         /\ nsched = 0
 
 DoNew == /\ st.phase = "uninit" /\ h = <<>>
-         /\ \E c \in CfgIds :
-              LET a == [a |-> "New", cfg |-> Cfgs[c], mode |-> "lazy"] IN
+         /\ \E c \in CfgIds, md \in Modes :
+              LET a == [a |-> "New", cfg |-> Cfgs[c], mode |-> md] IN
               /\ st' = Step(st, a).acc
               /\ h' = <<a>>
          /\ UNCHANGED <<nref, nsched>>
@@ -195,4 +196,6 @@ ViewNoHist == <<st, nref, nsched>>
 
 DumpHist == Dump = "hist" => PrintT(<<"HIST", ToJson(h)>>)
 DumpEdge == Dump = "edges" => PrintT(<<"HIST", ToJson(h')>>)
+\* simulation mode: print a behaviour when it reaches its full length
+DumpFinal == (Dump = "final" /\ Len(h) = MaxLen + 1) => PrintT(<<"HIST", ToJson(h)>>)
 =============================================================================
